@@ -2,26 +2,26 @@
 """Rewrites the table of DESIGN.md section 10.1 from the evidence files of the last quick runs."""
 import json, re
 NOTES = {
- "C01": ("`c_docs.rs`", "enum", "`U-tok` N = 5 (quick) / 6 (thorough); later additions: `U-inline-stmt`, `U-cp` (every BMP scalar value x 18 frames; thorough: every scalar value), `U-utf8`, `U-nest` (around the observed limit), long separated literals in `U-edge`"),
+ "C01": ("`c_docs.rs`", "enum", "`U-tok` N = 5 (quick) / 6 (thorough); later additions: `U-inline-stmt`, `U-cp` (every BMP scalar value x 18 frames; thorough: every scalar value), `U-utf8`, `U-nest` (around the observed limit), long separated literals in `U-edge`, `U-bom`"),
  "C02": ("`c_docs.rs`", "enum", "plus `U-stmt` over {a,b,c}; the position of a super-table first created implicitly and later defined by its own header is not constrained"),
  "C03": ("`c03.rs`", "enum", "KF-C03-1 recognised by an exact re-rendering (`normalise_shared_keys`)"),
  "C04": ("`c04.rs`", "proc", "12 entry points + 26 typed targets; growth family in sacrificial workers; watchdog; release differential (profile `mcrel`) and valgrind memcheck (10.6)"),
- "C05": ("`c05.rs`", "proc", "same binary in profile `mc` and `mcdev` (opt-level 0); 2 MiB threads in restartable worker processes; the limit is observed, not assumed"),
- "C06": ("`c06.rs`", "tree", "5 construction routes + `toml::Table` display; `U-chain`; `U-api-state` (vacated slots, reused values)"),
- "C07": ("`c07.rs` + `fam.rs`", "tree", "family of 18 root types (incl. root newtypes / enums); the \"unsupported\" predicate is a method of the family trait"),
- "C08": ("`c08.rs`", "state", "marker-comment oracle; 11 start documents + wide + CR LF documents; 26 op kinds; one frontier in memory"),
+ "C05": ("`c05.rs`", "proc", "same binary in profile `mc` and `mcdev` (opt-level 0); 2 MiB threads in restartable worker processes; the limit is observed, not assumed; wording shared with shallow syntax errors never counts as the limit error"),
+ "C06": ("`c06.rs`", "tree", "5 construction routes + `toml::Table` display; `U-chain`; `U-api-state` (vacated slots, reused values, dotted inline tables through conversions); `U-char`"),
+ "C07": ("`c07.rs` + `fam.rs`", "tree", "family of 19 root types (`U6`: `None` through the map interface) (incl. root newtypes / enums); the \"unsupported\" predicate is a method of the family trait"),
+ "C08": ("`c08.rs`", "state", "marker-comment oracle; 11 start documents + wide + CR LF documents; 27 op kinds (`MoveDotted`); one frontier in memory; `U-placeholder` histories"),
  "C09": ("`c_docs.rs`", "enum", "as planned; error wording only tallied"),
  "C10": ("`c10.rs`", "enum", "plus `U-quote-runs`, `U-char`, `U-long-runs`"),
- "C11": ("`c11.rs`", "enum", "complete lattices; value serializers; a foreign `Deserializer`; serde NaN sign normalisation honoured"),
- "C12": ("`c12.rs`", "enum", "k = 1 quick / 2 thorough"),
- "C13": ("`c07.rs`", "tree", "9 document routes + 3 single-value routes per value, 7 per document, toml::Value trees through every conversion"),
- "C14": ("`c14.rs`", "enum", "own `Spanned` self-describing tree; explicit span comparison on every entry point; newtype-wrapped keys; typed error locations"),
- "C15": ("`c15.rs`", "enum", "document, value and key entry points; typed family through 15 routes"),
- "C16": ("`c16.rs`", "state", "hand-rolled parallel BFS (generic `Sys` trait) to closure; sort family; double-ended iteration; placeholder positions left open; `preserve_order` histories from `cfgbattery`"),
- "C17": ("`c07.rs`", "tree", "value trees: 7 entry kinds x 3-4 keys x all insertion orders x 2 depths, also in the `preserve_order` build"),
- "C18": ("`c18.rs` + `cfgbattery`", "cfg", "8 configurations quick / 20 thorough; block digests + `dump`; panics and process death are results"),
+ "C11": ("`c11.rs`", "enum", "complete lattices; value serializers; a foreign `Deserializer`; serde NaN sign normalisation honoured; byte-buffer targets"),
+ "C12": ("`c12.rs`", "enum", "edit distance 2 in both tiers; thorough adds `U-dt-sub3` (every 3-position substitution, 80 M strings)"),
+ "C13": ("`c07.rs`", "tree", "9 document routes + 3 single-value routes per value, 7 per document, toml::Value trees through every conversion; `try_from` trees compared exactly (NaN sign included)"),
+ "C14": ("`c14.rs`", "enum", "own `Spanned` self-describing tree; explicit span comparison on every entry point; newtype-wrapped keys; typed error locations; header-defined tables end at their last token; `U-bom`"),
+ "C15": ("`c15.rs`", "enum", "document, value and key entry points; typed family through 15 routes; `U-long-line`; `U-typed-table`; `U-bom`"),
+ "C16": ("`c16.rs`", "state", "hand-rolled parallel BFS (generic `Sys` trait) to closure; sort family (dotted, wide, depth); double-ended iteration; placeholder positions left open; `preserve_order` histories from `cfgbattery`"),
+ "C17": ("`c07.rs`", "tree", "value trees: 7 entry kinds x 3-4 keys x all insertion orders x 2 depths, also in the `preserve_order` build (order kept within each class of entries); `U-string-tree`"),
+ "C18": ("`c18.rs` + `cfgbattery`", "cfg", "8 configurations quick / 20 thorough; block digests + `dump`; panics and process death are results; `te.strings.order`"),
  "C19": ("`c19.rs`", "prog", "generated programs; compile failures bisected to the document"),
- "C20": ("`c20.rs`", "enum", "every hook recorded; node identity = address; API histories with vacated slots, placeholders, empty containers"),
+ "C20": ("`c20.rs`", "enum", "every hook recorded; node identity = address; API histories with vacated slots, placeholders, empty containers; `U-deep` (chains to depth 1025 / 4097); structure compared after a non-modifying `VisitMut`"),
 }
 rows = ["| id | module | engine | quick tier (last run on this machine) | notes / deviations from section 5 |", "|---|---|---|---|---|"]
 for pid in sorted(NOTES):
